@@ -23,7 +23,9 @@ class Check(CheckBase):
             '(independent reader), a repeat snapshot must cause zero payload-carrying backend events, no user may write into '
             'a chunk location of another family, and independent families given identical data must produce disjoint names; '
             '(b) cross-process: init + snapshot in one interpreter, repeat snapshot of the same tree in a second interpreter '
-            'with a different PYTHONHASHSEED over a Local directory - no chunk file may be created or replaced (inode+mtime). '
+            'with a different PYTHONHASHSEED over a Local directory - no chunk file may be created or replaced (inode+mtime); '
+            '(c) command-line life cycles: the same data snapshotted through `python -m replicat` with keys from add-key --shared / --clone '
+            'adds no chunk object, with an independent key only objects the owner family does not recognise. '
             'class = (key-graph class, encrypted?, flavour, chunker, concurrency) / (xproc, settings class)')
     assumptions = ['histories are crash-free (property text); interrupted runs are the subject of C03/C08',
                    'vflib/refimpl.py decodes the format correctly (cross-checked by C14)']
